@@ -6,6 +6,7 @@ import (
 	"fmt"
 	"os"
 	"os/exec"
+	"time"
 
 	"github.com/codenotary/immudb/embedded/appendable/singleapp"
 	"github.com/codenotary/immudb/embedded/store"
@@ -56,6 +57,12 @@ func c03Body(r *simcore.Run) {
 	r.Disk.Attach(dir)
 	e := newStoreEnv(r, cfg, dir)
 	e.markAcks = true
+	// a quarter of the runs: the store commits only what it is allowed to (the mode of a replica, or of
+	// a primary with synchronous replication); a task grants the allowances after the fact
+	ext := r.Pct(25)
+	if ext {
+		e.optMod = func(o *store.Options) { o.WithExternalCommitAllowance(true) }
+	}
 	if err := e.open(); err != nil {
 		r.Violation("open-new", "", "cannot open a new store with %+v: %v", cfg, err)
 	}
@@ -73,8 +80,32 @@ func c03Body(r *simcore.Run) {
 	if r.Pct(60) {
 		tasks = append(tasks, r.Sched.Go("maint", func() { e.maintenance(1 + r.Intn(4)) }))
 	}
+	committersDone := false
+	var allower *simcore.Task
+	if ext {
+		allower = r.Sched.Go("allower", func() {
+			for {
+				r.Sched.Sleep(time.Duration(1+r.Intn(20)) * time.Millisecond)
+				pid := e.st.LastPrecommittedTxID()
+				cid := e.st.LastCommittedTxID()
+				if pid > cid {
+					upto := cid + 1 + uint64(r.Intn(int(pid-cid)))
+					if err := e.st.AllowCommitUpto(upto); err != nil && !errors.Is(err, store.ErrAlreadyClosed) {
+						r.Violation("allow-commit", "", "AllowCommitUpto(%d) with committed %d, precommitted %d failed: %v", upto, cid, pid, err)
+					}
+					r.Probe("c03-commit-allowance-granted")
+				} else if committersDone {
+					return
+				}
+			}
+		})
+	}
 	for _, t := range tasks {
 		t.Join()
+	}
+	committersDone = true
+	if allower != nil {
+		allower.Join()
 	}
 	n := e.verifyHistory("before crash", true)
 	if r.Bool() {
